@@ -1,6 +1,7 @@
 package bash
 
 import (
+	"errors"
 	"fmt"
 	"slices"
 	"strings"
@@ -199,6 +200,9 @@ func (c *converter) ForEnd() error {
 }
 
 func (c *converter) Break() error {
+	if len(c.fors) == 0 {
+		return errors.New("break is only supported within a for-loop")
+	}
 	c.addLine("break") // TODO: Break within switch. This might be a good solution -> https://stackoverflow.com/a/30874026.
 	return nil
 }
